@@ -177,26 +177,26 @@ func (net *Network) AddLink(l geom.LineString, speed float64) {
 	net.neighbors[tid][fid] = e
 }
 
-// Weight returns the weight associated with this edge.
+// Weight returns the weight (travel time or distance, depending on the
+// MinimizeOption) of the link between the nodes with IDs xid and yid.
+// It implements gonum's path.Weighted so that path.AStar uses the link
+// weights instead of a uniform cost.
 // It is not intended for direct use in this package.
-func (net *Network) Weight(e graph.Edge) float64 {
-	if n, ok := net.neighbors[e.From().ID()]; ok {
-		if we, ok := n[e.To().ID()]; ok {
-			switch net.minimizeOption {
-			// If we're optimizing by time, return use the minimum speed to
-			// calculate the time to ensure the heuristic is less than the actual
-			// value
-			case Time:
-				return we.time
-			case Distance:
-				// If we're optimizing by distance, just return the distance.
-				return we.length
-			default:
-				panic(fmt.Errorf("Invalid MinimizeOption %v", net.minimizeOption))
-			}
+func (net Network) Weight(xid, yid int64) (w float64, ok bool) {
+	if xid == yid {
+		return 0, true
+	}
+	if we, ok := net.neighbors[xid][yid]; ok {
+		switch net.minimizeOption {
+		case Time:
+			return we.time, true
+		case Distance:
+			return we.length, true
+		default:
+			panic(fmt.Errorf("Invalid MinimizeOption %v", net.minimizeOption))
 		}
 	}
-	panic("route: attempting to find an edge that is not in the graph")
+	return math.Inf(1), false
 }
 
 type edge struct {
